@@ -299,6 +299,7 @@ PROPS["C42"] = {
         H(TOP, "c42_workers_for_contract", "workers_for", "1 <= r <= max(max,1); r <= max(work,1); r == work when 1 <= work <= max; all (usize,usize)"),
         H(TOP, "c42_kx_cpulist_part_denotation", "parse_cpulist (loop body region)", "appended ids == denotation of the part (singleton / inclusive range / nothing), ascending, frame preserved, no panic; all ids in usize",
           lane="KX", bound="range width <= 4 (the `for c in a..=b` loop)"),
+        {"name": TOP + "::verif_kani::whole::c42_kx_parse_cpulist_whole", "fn": "parse_cpulist (whole function body on carriers)", "contract": "result strictly increasing and exactly the union of what the parts denote (singletons, inclusive ranges, junk ignored)", "lane": "KX", "bound": "<= 2 parts, ranges <= 3 wide, ids < 6", "tier": "quick", "finding": None},
         H(TOP, "c42_kx_cpulist_tail_sorted_set", "parse_cpulist (tail region `out.sort_unstable(); out.dedup();`)", "result strictly increasing and the same set of ids as collected, for any order and repetitions", lane="KX", bound="<= 4 collected ids"),
     ],
     "trusted_base": [
@@ -484,7 +485,10 @@ PROPS["C02"] = {
         H(CFO, "c02_o4_eval_int64_ge", "ConstantFolding::eval_int64", ">= folds to the comparison"),
         H(CFO, "c02_o4_eval_int64_other_ops_not_folded", "ConstantFolding::eval_int64", "a non-arithmetic, non-comparison operator is not folded"),
         H(CFO, "c02_o4_eval_bool", "ConstantFolding::eval_bool", "AND/OR/=/<> on non-NULL booleans"),
-        {"name": CFO + "::verif_kani::fold_c::c02_o5_fold_binary_step", "fn": "ConstantFolding::fold_expr (BinaryExpr arm, carrier Expr)", "contract": "inductive step: for every 3VL valuation of the opaque operands and every operand shape (sub-expression, TRUE/FALSE literal, NULL literal), eval3(fold(l AND/OR r)) == eval3(l) and3/or3 eval3(r); recursive calls and eval_binary by contract", "lane": "KX", "bound": None, "tier": "quick", "finding": None},
+        {"name": CFO + "::verif_kani::fold_c::c02_o5_fold_and_leaf_left", "fn": "ConstantFolding::fold_expr (BinaryExpr arm, carrier Expr)", "contract": "inductive step (AND, left operand an opaque sub-expression; right operand any shape): for every 3VL valuation, eval3(fold(l op r)) == eval3(l) op3 eval3(r); recursive calls and eval_binary by contract", "lane": "KX", "bound": None, "tier": "quick", "finding": None},
+        {"name": CFO + "::verif_kani::fold_c::c02_o5_fold_and_literal_left", "fn": "ConstantFolding::fold_expr (BinaryExpr arm, carrier Expr)", "contract": "inductive step (AND, left operand a TRUE/FALSE/NULL literal; right operand any shape): for every 3VL valuation, eval3(fold(l op r)) == eval3(l) op3 eval3(r); recursive calls and eval_binary by contract", "lane": "KX", "bound": None, "tier": "quick", "finding": None},
+        {"name": CFO + "::verif_kani::fold_c::c02_o5_fold_or_leaf_left", "fn": "ConstantFolding::fold_expr (BinaryExpr arm, carrier Expr)", "contract": "inductive step (OR, left operand an opaque sub-expression; right operand any shape): for every 3VL valuation, eval3(fold(l op r)) == eval3(l) op3 eval3(r); recursive calls and eval_binary by contract", "lane": "KX", "bound": None, "tier": "quick", "finding": None},
+        {"name": CFO + "::verif_kani::fold_c::c02_o5_fold_or_literal_left", "fn": "ConstantFolding::fold_expr (BinaryExpr arm, carrier Expr)", "contract": "inductive step (OR, left operand a TRUE/FALSE/NULL literal; right operand any shape): for every 3VL valuation, eval3(fold(l op r)) == eval3(l) op3 eval3(r); recursive calls and eval_binary by contract", "lane": "KX", "bound": None, "tier": "quick", "finding": None},
         H(CFO, "c02_o4_eval_float64__excluding_known", "ConstantFolding::eval_float64", "comparisons equal the interpreter's (arrow total order) outside the NaN/signed-zero class; x / 0.0 is not folded"),
     ],
     "trusted_base": [
